@@ -245,7 +245,7 @@ func c01MultiBins(c *vx.Check, keys []uint64, opts []c01Opt) {
 
 // c01MultiNary: UnionInPlace/Union with 2..3 others over two-key bitmaps (keys 0 and 1) whose
 // containers sit on both sides of the 512-value in-place threshold and include full containers.
-func c01MultiNary(c *vx.Check, maxOthers int, thorough bool) {
+func c01MultiNary(c *vx.Check, maxOthers int, nopts int, thorough bool) {
 	full := c01MakeShape("full", c01Seq(65536, func(i int) int { return i }))
 	opts := []c01Opt{
 		{name: "absent"},
@@ -253,11 +253,12 @@ func c01MultiNary(c *vx.Check, maxOthers int, thorough bool) {
 		{name: "rfull", sh: full, enc: c01EncRun},
 		{name: "b-stride2-N4097", sh: c01MakeShape("stride2-N4097", c01Seq(4097, func(i int) int { return 2 * i })), enc: c01EncBitmap},
 	}
-	if thorough {
+	{
 		opts = append(opts,
 			c01Opt{name: "a-stride100-N600", sh: c01MakeShape("stride100-N600", c01Seq(600, func(i int) int { return 100*i + 1 })), enc: c01EncArray},
 			c01Opt{name: "r[1..65535]", sh: c01MakeShape("[1..65535]", c01Seq(65535, func(i int) int { return i + 1 })), enc: c01EncRun})
 	}
+	opts = opts[:nopts]
 	keys := []uint64{0, 1}
 	nprov := 2
 	if thorough {
@@ -338,7 +339,7 @@ func TestVerif_C01(t *testing.T) {
 	shapes := c01MaskShapes(U)
 	Up := []uint16{0, 1, 63, 64, 65, 65534, 65535}
 	if thorough {
-		Up = []uint16{0, 1, 2, 63, 64, 65, 4095, 4096, 65534, 65535}
+		Up = []uint16{0, 1, 2, 63, 64, 65, 4096, 65534, 65535}
 	}
 	pshapes := c01MaskShapes(Up)
 	c.Bound("pair_universe_low_bits", Up)
@@ -360,7 +361,6 @@ func TestVerif_C01(t *testing.T) {
 	if thorough {
 		kinds = []int{0, 1}
 	}
-	c01Timed(c, "SinglePairs", func() { c01SinglePairs(c, "pairs", pshapes, pshapes, allProvs[:3], kinds) })
 	// (3b) family × family and small × family pairs
 	c01Timed(c, "SinglePairs", func() { c01SinglePairs(c, "family-pairs", fam, fam, allProvs[:c.Pick(2, 4)], kinds) })
 	small := c01MaskShapes([]uint16{0, 1, 65534, 65535})
@@ -378,8 +378,13 @@ func TestVerif_C01(t *testing.T) {
 	c.Bound("multi_container_options", len(opts))
 	c01Timed(c, "MultiReads", func() { c01MultiReads(c, []uint64{0, 1, 2, c01TopKey}, opts) })
 	c01Timed(c, "MultiBins", func() { c01MultiBins(c, []uint64{0, 1, c01TopKey}, opts[:5]) })
-	c01Timed(c, "MultiNary", func() { c01MultiNary(c, c.Pick(2, 3), thorough) })
+	c01Timed(c, "MultiNary", func() { c01MultiNary(c, 2, c.Pick(4, 5), thorough) })
+	if thorough {
+		c01Timed(c, "MultiNary", func() { c01MultiNary(c, 3, 4, thorough) })
+	}
 
+	// (2) the largest product last, so that a deadline hit under load cuts only this part
+	c01Timed(c, "SinglePairs", func() { c01SinglePairs(c, "pairs", pshapes, pshapes, allProvs[:3], kinds) })
 	c.Assume("values outside the boundary universe / threshold families are covered only by the small-scope argument (kernels are position-relative)")
 	c.Assume("Flip ranges ending at 2^64-1 are not executed: `for i := start; i <= end; i++` cannot terminate for end=2^64-1 (reported from reading, see mutants/C01.md)")
 	c.Assume("range reads use start<=end; OffsetRange arguments are container-aligned as the API requires")
